@@ -24,36 +24,61 @@ type streamObs struct {
 
 // runRead feeds r through sse.Read, stopping after stopAfter events (<0: never).
 func runRead(r io.Reader, cfg *sse.ReadConfig, stopAfter int) (obs streamObs) {
-	defer func() {
-		if p := recover(); p != nil {
-			obs.panicked = p
-		}
-	}()
-	stopped, sawErr := false, false
-	sse.Read(r, cfg)(func(e sse.Event, err error) bool {
-		if stopped {
-			obs.afterStop++
-			return false
-		}
-		if sawErr {
-			obs.afterErr++
-			return false
-		}
-		if err != nil {
-			sawErr = true
-			obs.err = err
-			if e != (sse.Event{}) {
-				obs.eventWithErr = true
+	return runReadAgain(r, cfg, stopAfter, nil)
+}
+
+// runReadAgain is runRead; when between is not nil it is called after the loop over the sequence
+// has ended and the same sequence is then ranged over a second time. What a second loop yields is
+// not prescribed (the first loop's parser may have buffered bytes it did not use), but it must not
+// panic.
+func runReadAgain(r io.Reader, cfg *sse.ReadConfig, stopAfter int, between func()) (obs streamObs) {
+	var seq func(func(sse.Event, error) bool)
+	func() {
+		defer func() {
+			if p := recover(); p != nil {
+				obs.panicked = p
 			}
-			return true // keep going: nothing may follow an error
-		}
-		obs.events = append(obs.events, RefEvent{ID: e.LastEventID, Type: e.Type, Data: e.Data})
-		if stopAfter >= 0 && len(obs.events) >= stopAfter {
-			stopped = true
-			return false
-		}
-		return true
-	})
+		}()
+		stopped, sawErr := false, false
+		seq = sse.Read(r, cfg)
+		seq(func(e sse.Event, err error) bool {
+			if stopped {
+				obs.afterStop++
+				return false
+			}
+			if sawErr {
+				obs.afterErr++
+				return false
+			}
+			if err != nil {
+				sawErr = true
+				obs.err = err
+				if e != (sse.Event{}) {
+					obs.eventWithErr = true
+				}
+				return true // keep going: nothing may follow an error
+			}
+			obs.events = append(obs.events, RefEvent{ID: e.LastEventID, Type: e.Type, Data: e.Data})
+			if stopAfter >= 0 && len(obs.events) >= stopAfter {
+				stopped = true
+				return false
+			}
+			return true
+		})
+	}()
+	if between == nil || obs.panicked != nil {
+		return obs
+	}
+	between()
+	func() {
+		defer func() {
+			if p := recover(); p != nil {
+				obs.panicked = fmt.Sprintf("second loop over the same Read sequence: %v", p)
+			}
+		}()
+		n := 0
+		seq(func(sse.Event, error) bool { n++; return n < 64 })
+	}()
 	return obs
 }
 
@@ -245,7 +270,8 @@ func runStreamWorld(rc *RunCtx) *Outcome {
 	}
 	endErr := error(io.EOF)
 	if kind == endError {
-		endErr = newInjected("read at offset " + strconv.Itoa(end))
+		// io.Reader: a clean end is io.EOF itself; an error that merely wraps or matches it is a failure
+		endErr = newInjectedAs("read at offset "+strconv.Itoa(end), drawDisguise(ch, "read error"))
 	}
 	// a buffer configuration that is large enough for every event here must not change anything
 	var cfg *sse.ReadConfig
@@ -268,14 +294,22 @@ func runStreamWorld(rc *RunCtx) *Outcome {
 	if bufMode != 0 {
 		o.probe("generous buffer configured")
 	}
+	again := entry == "Read" && ch.Chance(1, 4, "second loop over the sequence")
+	if again {
+		o.probe("Read sequence ranged over twice")
+	}
 	o.logf("stream %q", stream)
-	o.logf("end=%v kind=%d entry=%s bufMode=%d max=%d", end, kind, entry, bufMode, connMax)
+	o.logf("end=%v kind=%d entry=%s bufMode=%d max=%d again=%v", end, kind, entry, bufMode, connMax, again)
 
 	run := func(plan []int, seg string, stopAfter int) {
 		r := &simReader{data: data, end: end, endErr: endErr, withData: withData, plan: plan, ch: ch}
 		var obs streamObs
 		if entry == "Read" {
-			obs = runRead(r, cfg, stopAfter)
+			var between func()
+			if again {
+				between = func() {}
+			}
+			obs = runReadAgain(r, cfg, stopAfter, between)
 		} else {
 			obs, _ = runConn(r, connBuf, connMax)
 		}
